@@ -213,3 +213,10 @@ def post(total, tier, seed):
 
 SUBCHECKS = {"targets": _T(), "cube": _C()}
 REPLAY = {"targets": lambda c: explore_targets(c).fails, "cube": lambda c: explore_cube(c).fails}
+
+# keyword / dict calls bind the documented names (see mc/kw.py)
+from .. import kw as _kw  # noqa: E402
+
+_KW = _kw.KwSub("allocation")
+SUBCHECKS["keywords"] = _KW
+REPLAY["keywords"] = _KW.replay
